@@ -90,6 +90,40 @@ var mutCtxBackground = mutOp{Name: "ctx->Background", Doc: "replace the context 
 		return out
 	}}
 
+// slot context -> subscriber context
+var mutCtxSubscriber = mutOp{Name: "slotctx->subscriberctx", Doc: "replace the context operand of a notification sent from inside a source callback by the subscription-time context",
+	Gen: func(m *model.Model, scope map[string]bool) []mutant {
+		var out []mutant
+		for _, sc := range m.SCs {
+			if !inScopeSC(sc, scope) || sc.Ctx0 == nil {
+				continue
+			}
+			seen := map[token.Pos]bool{}
+			for _, e := range sc.Emits {
+				if e.Forwarder || !e.WithCtx || e.CtxArg == nil || !inSourceSlot(e.Ctx) || seen[e.CtxArg.Pos()] {
+					continue
+				}
+				if !(sc.Lit.Pos() <= e.CtxArg.Pos() && e.CtxArg.End() <= sc.Lit.End()) {
+					continue
+				}
+				if id, ok := ast.Unparen(e.CtxArg).(*ast.Ident); ok && objOf(e.Pkg.TypesInfo, id) == types.Object(sc.Ctx0) {
+					continue
+				}
+				// the subscriber context must not be shadowed at the use
+				if inner := e.Pkg.Types.Scope().Innermost(e.CtxArg.Pos()); inner == nil {
+					continue
+				} else if _, o := inner.LookupParent(sc.Ctx0.Name(), e.CtxArg.Pos()); o != types.Object(sc.Ctx0) {
+					continue
+				}
+				seen[e.CtxArg.Pos()] = true
+				out = append(out, mutant{ID: "slotctx->subscriberctx:" + e.Key, Op: "slotctx->subscriberctx", Group: e.Key, File: fileOf(m, e.CtxArg.Pos()),
+					Edits: []edit{{offset(m, e.CtxArg.Pos()), offset(m, e.CtxArg.End()), sc.Ctx0.Name()}}, Expect: e.Key + "/ctx",
+					Desc: fmt.Sprintf("%s: context operand %q replaced by the subscriber context %s", e.Key, types.ExprString(e.CtxArg), sc.Ctx0.Name())})
+			}
+		}
+		return out
+	}}
+
 // safe constructor -> unsafe sibling
 var mutUnsafeCtor = mutOp{Name: "safe->unsafe", Doc: "replace the safe observable constructor of a multi-producer operator by its unsafe sibling",
 	Gen: func(m *model.Model, scope map[string]bool) []mutant {
